@@ -2,7 +2,7 @@
    prints them), the numpy primitives the EigenSolve model (C11) is written with, and their algebra for
    any commutative ring / field with Leibniz equality (R, pairs of reals = complex numbers, ...).
    Also: the complex numbers over R as a field (instance for the generic theorems), and the evaluation
-   domains Q / Gaussian rationals Q[i] (exact + - *, division and square root rounded to 128 bits). *)
+   domains: dyadic numbers and pairs of them (exact + - *, division and square root rounded to 72 bits). *)
 From Coq Require Import ZArith QArith Qabs Reals List Lia Lra Ring Field Bool Permutation.
 From Pymoto Require Import Base.Num.
 Import ListNotations.
@@ -233,59 +233,79 @@ Proof.
 Qed.
 
 (* ------------------------------------------------------------------------------------------------ *)
-(* evaluation domains: float64 data as exact rationals, complex128 data as Gaussian rationals.
-   + - * are exact (dyadic numbers stay dyadic); division and square root are ROUNDED to >= 128 significant
-   bits and return dyadic numbers, so that numerals stay small under vm_compute (exact quotients of 700-bit
-   numbers make Qred's gcd take seconds).  These instances are used only to evaluate the model in the
-   correspondence check, where results are compared with float64 results at 1e-9. *)
-Definition div_bits : Z := 128.
-Definition Qdivr (a b : Q) : Q :=
-  let n := (Qnum a * Zpos (Qden b))%Z in
-  let d := (Zpos (Qden a) * Qnum b)%Z in
-  if (d =? 0)%Z then 0%Q
+(* evaluation domains: float64 data as dyadic numbers m * 2^e (pairs of integers), complex128 data as pairs of
+   those.  + - * are exact and need no gcd (so vm_compute stays fast); division and square root are ROUNDED to
+   >= 72 significant bits.  These instances are used only to evaluate the model in the correspondence check,
+   where results are compared with float64 results at 1e-9; every float64 is a dyadic number. *)
+Definition Dy : Type := (Z * Z)%type.
+Definition div_bits : Z := 72.
+Definition dy0 : Dy := (0, 0)%Z.
+Definition dy_add (a b : Dy) : Dy :=
+  let '(m1, e1) := a in
+  let '(m2, e2) := b in
+  if (m1 =? 0)%Z then b
+  else if (m2 =? 0)%Z then a
   else
-    let n' := (if (d <? 0)%Z then - n else n)%Z in
-    let d' := Z.abs d in
-    if (n' =? 0)%Z then 0%Q
-    else
-      let p := (div_bits + Z.max 0 (Z.log2 d' - Z.log2 (Z.abs n')))%Z in
-      Qred (Qmake ((n' * 2 ^ p) / d') (Z.to_pos (2 ^ p))).
-Definition Qsqrt (x : Q) : Q :=
-  let n := Qnum x in
-  let d := Zpos (Qden x) in
-  if (n <=? 0)%Z then 0%Q
+    let r := if (e1 <=? e2)%Z then ((m1 + Z.shiftl m2 (e2 - e1))%Z, e1) else ((Z.shiftl m1 (e1 - e2) + m2)%Z, e2) in
+    if (fst r =? 0)%Z then dy0 else r.
+Definition dy_opp (a : Dy) : Dy := ((- fst a)%Z, snd a).
+Definition dy_sub (a b : Dy) : Dy := dy_add a (dy_opp b).
+Definition dy_mul (a b : Dy) : Dy :=
+  let m := (fst a * fst b)%Z in if (m =? 0)%Z then dy0 else (m, (snd a + snd b)%Z).
+Definition dy_div (a b : Dy) : Dy :=
+  let '(m1, e1) := a in
+  let '(m2, e2) := b in
+  if (m2 =? 0)%Z then dy0
+  else if (m1 =? 0)%Z then dy0
   else
-    let p := (div_bits + Z.max 0 ((Z.log2 d - Z.log2 n) / 2 + 1))%Z in
-    Qred (Qmake (Z.sqrt ((n * 4 ^ p) / d)) (Z.to_pos (2 ^ p))).
-Definition NumQd : Num Q :=
-  {| nzero := 0%Q; none_ := 1%Q; nadd := Qradd; nmul := Qrmul; nsub := Qrsub; nopp := Qopp;
-     ndiv := Qdivr; nofZ := fun z => inject_Z z |}.
+    let p := (div_bits + Z.max 0 (Z.log2 (Z.abs m2) - Z.log2 (Z.abs m1)))%Z in
+    ((Z.shiftl m1 p / m2)%Z, (e1 - e2 - p)%Z).
+Definition dy_sqrt (a : Dy) : Dy :=
+  let '(m, e) := a in
+  if (m <=? 0)%Z then dy0
+  else
+    let '(m', e') := if Z.even e then (m, e) else ((2 * m)%Z, (e - 1)%Z) in
+    let p := Z.max 0 (div_bits - Z.log2 m' / 2) in
+    (Z.sqrt (Z.shiftl m' (2 * p)), (e' / 2 - p)%Z).
+Definition dy_abs (a : Dy) : Dy := (Z.abs (fst a), snd a).
+Definition dy_sgn (a : Dy) : Z := Z.sgn (fst a).
+Definition dy_leb (a b : Dy) : bool := (0 <=? fst (dy_sub b a))%Z.
+Definition dy_eqb (a b : Dy) : bool := (fst (dy_sub a b) =? 0)%Z.
+Definition dy2Q (a : Dy) : Q :=
+  let '(m, e) := a in
+  if (0 <=? e)%Z then inject_Z (Z.shiftl m e) else Qmake m (Z.to_pos (Z.shiftl 1 (- e))).
+(* a <= t for a rational t *)
+Definition dy_le_Q (a : Dy) (t : Q) : bool := Qle_bool (dy2Q a) t.
+Definition NumDy : Num Dy :=
+  {| nzero := dy0; none_ := (1, 0)%Z; nadd := dy_add; nmul := dy_mul; nsub := dy_sub; nopp := dy_opp;
+     ndiv := dy_div; nofZ := fun z => (z, 0%Z) |}.
 
-Definition QC : Type := (Q * Q)%type.
-Definition qc_add (a b : QC) : QC := (Qradd (fst a) (fst b), Qradd (snd a) (snd b)).
-Definition qc_sub (a b : QC) : QC := (Qrsub (fst a) (fst b), Qrsub (snd a) (snd b)).
-Definition qc_opp (a : QC) : QC := (Qopp (fst a), Qopp (snd a)).
-Definition qc_mul (a b : QC) : QC :=
-  (Qrsub (Qrmul (fst a) (fst b)) (Qrmul (snd a) (snd b)), Qradd (Qrmul (fst a) (snd b)) (Qrmul (snd a) (fst b))).
-Definition qc_div (a b : QC) : QC :=
-  let d := Qradd (Qrmul (fst b) (fst b)) (Qrmul (snd b) (snd b)) in
-  (Qdivr (Qradd (Qrmul (fst a) (fst b)) (Qrmul (snd a) (snd b))) d,
-   Qdivr (Qrsub (Qrmul (snd a) (fst b)) (Qrmul (fst a) (snd b))) d).
-Definition NumQCd : Num QC :=
-  {| nzero := (0, 0)%Q; none_ := (1, 0)%Q; nadd := qc_add; nmul := qc_mul; nsub := qc_sub; nopp := qc_opp;
-     ndiv := qc_div; nofZ := fun z => (inject_Z z, 0%Q) |}.
-Definition qc_conj (a : QC) : QC := (fst a, Qopp (snd a)).
-Definition qc_abs2 (a : QC) : Q := Qradd (Qrmul (fst a) (fst a)) (Qrmul (snd a) (snd a)).
+Definition DyC : Type := (Dy * Dy)%type.
+Definition dc_add (a b : DyC) : DyC := (dy_add (fst a) (fst b), dy_add (snd a) (snd b)).
+Definition dc_sub (a b : DyC) : DyC := (dy_sub (fst a) (fst b), dy_sub (snd a) (snd b)).
+Definition dc_opp (a : DyC) : DyC := (dy_opp (fst a), dy_opp (snd a)).
+Definition dc_mul (a b : DyC) : DyC :=
+  (dy_sub (dy_mul (fst a) (fst b)) (dy_mul (snd a) (snd b)), dy_add (dy_mul (fst a) (snd b)) (dy_mul (snd a) (fst b))).
+Definition dc_abs2 (a : DyC) : Dy := dy_add (dy_mul (fst a) (fst a)) (dy_mul (snd a) (snd a)).
+Definition dc_div (a b : DyC) : DyC :=
+  let d := dc_abs2 b in
+  (dy_div (dy_add (dy_mul (fst a) (fst b)) (dy_mul (snd a) (snd b))) d,
+   dy_div (dy_sub (dy_mul (snd a) (fst b)) (dy_mul (fst a) (snd b))) d).
+Definition NumDyC : Num DyC :=
+  {| nzero := (dy0, dy0); none_ := ((1, 0)%Z, dy0); nadd := dc_add; nmul := dc_mul; nsub := dc_sub; nopp := dc_opp;
+     ndiv := dc_div; nofZ := fun z => ((z, 0%Z), dy0) |}.
+Definition dc_conj (a : DyC) : DyC := (fst a, dy_opp (snd a)).
 
 (* principal complex square root (numpy branch: real part >= 0; on the negative real axis +i*sqrt|a|) *)
-Definition QCsqrt (z : QC) : QC :=
+Definition dy_two : Dy := (2, 0)%Z.
+Definition dc_sqrt (z : DyC) : DyC :=
   let a := fst z in let b := snd z in
-  let r := Qsqrt (qc_abs2 z) in
-  if Qeq_bool r 0 then (0, 0)%Q
-  else if Qle_bool 0 a then
-    let re := Qsqrt (Qdivr (Qradd r a) 2) in
-    (re, Qdivr b (Qrmul 2 re))
+  let r := dy_sqrt (dc_abs2 z) in
+  if (fst r =? 0)%Z then (dy0, dy0)
+  else if (0 <=? fst a)%Z then
+    let re := dy_sqrt (dy_div (dy_add r a) dy_two) in
+    (re, dy_div b (dy_mul dy_two re))
   else
-    let im := Qsqrt (Qdivr (Qrsub r a) 2) in
-    let re := Qdivr (Qabs b) (Qrmul 2 im) in
-    (re, if Qle_bool 0 b then im else Qopp im).
+    let im := dy_sqrt (dy_div (dy_sub r a) dy_two) in
+    let re := dy_div (dy_abs b) (dy_mul dy_two im) in
+    (re, if (0 <=? fst b)%Z then im else dy_opp im).
